@@ -41,6 +41,7 @@ from explorerscript.ssb_converting.ssb_special_ops import (
     SwitchStart,
     OPS_THAT_END_CONTROL_FLOW,
     OP_SWITCH_DUNGEON_MODE,
+    OP_JUMP,
 )
 from explorerscript.ssb_converting.util import Blk
 
@@ -123,6 +124,8 @@ class SwitchWriteHandler(AbstractWriteHandler):
                                 if not handler.last_handler_in_block.ended_on_jump and (
                                     root_op_before is None
                                     or root_op_before.op_code.name not in OPS_THAT_END_CONTROL_FLOW
+                                    # (a jump to the end of the switch for which no jump statement was written)
+                                    or root_op_before.op_code.name == OP_JUMP
                                 ):
                                     self.decompiler.write_stmnt("break;")
 
